@@ -18,6 +18,9 @@ inductive Step
   | dropChain
   | retOkIfNotOriginal
   | retOkIfPanicking
+  /-- `let n = Arc::strong_count(..)`: the count is read here, whatever is released afterwards -/
+  | sampleStrong
+  /-- compares the sampled count if one was taken, else reads the count on the spot -/
   | panicIfStrongGt (k : Nat)
   | panicIfOtherThread
   | errIfReasons
@@ -57,17 +60,20 @@ def b2n (b : Bool) : Nat := if b then 1 else 0
 def strongAt (o : Obs) (f : Flags) : Nat :=
   1 + b2n o.others + b2n (o.helperAlive && !f.helperDropped) + b2n (o.parkedAlive && !f.chainDropped)
 
-def run : List Step → Obs → Flags → Verdict × Flags
-  | [], _, f => (.fellThrough, f)
-  | .setTornDown :: r, o, f => run r o { f with tornDown := true }
-  | .dropHelper :: r, o, f => run r o { f with helperDropped := true }
-  | .dropChain :: r, o, f => run r o { f with chainDropped := true }
-  | .retOkIfNotOriginal :: r, o, f => if !o.original then (.ok, f) else run r o f
-  | .retOkIfPanicking :: r, o, f => if o.panicking then (.ok, f) else run r o f
-  | .panicIfStrongGt k :: r, o, f => if strongAt o f > k then (.panicClones, f) else run r o f
-  | .panicIfOtherThread :: r, o, f => if o.otherThread then (.panicThread, f) else run r o f
-  | .errIfReasons :: r, o, f => if o.reasons then (.errsReasons, f) else run r o f
-  | .verify :: _, o, f => (if o.verifyErrs then .errsVerify else .ok, f)
+def runS : List Step → Obs → Flags → Option Nat → Verdict × Flags
+  | [], _, f, _ => (.fellThrough, f)
+  | .setTornDown :: r, o, f, s => runS r o { f with tornDown := true } s
+  | .dropHelper :: r, o, f, s => runS r o { f with helperDropped := true } s
+  | .dropChain :: r, o, f, s => runS r o { f with chainDropped := true } s
+  | .retOkIfNotOriginal :: r, o, f, s => if !o.original then (.ok, f) else runS r o f s
+  | .retOkIfPanicking :: r, o, f, s => if o.panicking then (.ok, f) else runS r o f s
+  | .sampleStrong :: r, o, f, _ => runS r o f (some (strongAt o f))
+  | .panicIfStrongGt k :: r, o, f, s => if s.getD (strongAt o f) > k then (.panicClones, f) else runS r o f s
+  | .panicIfOtherThread :: r, o, f, s => if o.otherThread then (.panicThread, f) else runS r o f s
+  | .errIfReasons :: r, o, f, s => if o.reasons then (.errsReasons, f) else runS r o f s
+  | .verify :: _, o, f, _ => (if o.verifyErrs then .errsVerify else .ok, f)
+
+def run (steps : List Step) (o : Obs) (f : Flags) : Verdict × Flags := runS steps o f none
 
 /-- the model's `teardownInst` / `teardownVerdict`, on observations -/
 def specVerdict (o : Obs) : Verdict × Flags :=
